@@ -11,6 +11,7 @@ Z3_VERSION = "z3-" + z3.get_version_string()
 
 def _cvc5(smt2, timeout_s):
     with tempfile.NamedTemporaryFile("w", suffix=".smt2", delete=False) as f:
+        smt2 = smt2.replace("ubv_to_int", "bv2nat")
         f.write("(set-logic ALL)\n" + smt2 + "\n(check-sat)\n")
         path = f.name
     try:
@@ -25,7 +26,26 @@ def _cvc5(smt2, timeout_s):
 
 
 def discharge(ob, timeout_s=30, use_cvc5=True):
+    from .cvc import has_quantifier
     t0 = time.time()
+    # stage 0 (relevance filter): a quantifier-free goal is first tried against the quantifier-free
+    # assumptions only -- fewer assumptions is sound, and it keeps MBQI out of simple arithmetic facts
+    if not has_quantifier(ob.goal):
+        s0 = z3.Solver()
+        s0.set("timeout", 3000)
+        nq = 0
+        for a in ob.pc:
+            if has_quantifier(a):
+                nq += 1
+            else:
+                s0.add(a)
+        if nq:
+            s0.add(z3.Not(ob.goal))
+            if s0.check() == z3.unsat:
+                ob.time = time.time() - t0
+                ob.backend = Z3_VERSION
+                ob.status = "discharged"
+                return ob
     s = z3.Solver()
     s.set("timeout", int(timeout_s * 1000))
     for a in ob.pc:
